@@ -13,7 +13,7 @@ import stat as _stat
 from .common import Unmodelled, is_sym
 from .fs import ABSENT, FILE, DIR, DIR_SIZE, oserr
 
-MUTATING = ('mkdir', 'makedirs', 'rename', 'replace', 'rmdir', 'remove', 'open-w', 'gzip-w', 'mkdtemp', 'rmtree')
+MUTATING = ('mkdir', 'makedirs', 'rename', 'replace', 'rmdir', 'remove', 'open-w', 'gzip-w', 'gzip-data', 'mkdtemp', 'rmtree')
 
 
 class NS:
@@ -71,6 +71,7 @@ class ModelFile:
     def __init__(self, env, p, mode, gz=False):
         fs = env.fs
         self.env, self.p, self.mode = env, p, mode
+        self.gz = gz
         self.closed = False
         if 'w' in mode or 'a' in mode or 'x' in mode:
             self.node = fs.open_write(p)
@@ -88,6 +89,9 @@ class ModelFile:
         return Content(self.node.cid)
 
     def write(self, data):
+        if self.gz:
+            # the cache document is being written into the (already created) file
+            self.env.call('gzip-data', (self.p,), True)
         self.node.payload = data
         return 1
 
@@ -230,7 +234,7 @@ class ModelEnv(BaseEnv):
             p = _os.fspath(p)
             if 'w' in mode:
                 call('gzip-w', (p,), True)
-                return ModelFile(self, p, 'w')
+                return ModelFile(self, p, 'w', gz=True)
             call('gzip-r', (p,), False)
             f = ModelFile(self, p, 'r')
             if self.gzip_read_hook is not None:
@@ -381,6 +385,27 @@ class RealFS:
         return out
 
 
+class _HookedWriter:
+    """A real file object whose write() is a hook point (fault injection into the cache write)."""
+
+    def __init__(self, f, hook):
+        self._f, self._hook = f, hook
+
+    def write(self, data):
+        self._hook()
+        return self._f.write(data)
+
+    def __enter__(self):
+        self._f.__enter__()
+        return self
+
+    def __exit__(self, *a):
+        return self._f.__exit__(*a)
+
+    def __getattr__(self, name):
+        return getattr(self._f, name)
+
+
 class RealEnv(BaseEnv):
     real = True
 
@@ -433,8 +458,8 @@ class RealEnv(BaseEnv):
         def gzopen(p, mode='rb', *a, **kw):
             if 'w' in mode:
                 call('gzip-w', (_os.fspath(p),), True)
-            else:
-                call('gzip-r', (_os.fspath(p),), False)
+                return _HookedWriter(_gzip.open(p, mode, *a, **kw), lambda: call('gzip-data', (_os.fspath(p),), True))
+            call('gzip-r', (_os.fspath(p),), False)
             return _gzip.open(p, mode, *a, **kw)
 
         self.gzip = NS('gzip', open=gzopen)
